@@ -390,3 +390,33 @@ M("C13", "idbyname-uint32-shift", [("esutil/htm/htm_src/SpatialIndex.cpp", "  ui
 M("C13", "bincount-maxid-from-given-ids-off", [(HT, "            if maxid is None:\n                maxid = htmid2.max()\n\n        if htmrev2 is None:", "            if maxid is None:\n                maxid = htmid2.max() - (1 if htmid2.size > 100 else 0)\n\n        if htmrev2 is None:")],
   "precomputed ids without maxid: the top triangle is cut off for sets of more than 100 points")
 M("C13", "control-logscale-hoisted", [(HC, "    double log_binsize = (logrmax-logrmin)/nbin;\n    if (log_binsize < 0) {", "    double log_binsize = (logrmax-logrmin)/(double)nbin;\n    if (log_binsize < 0) {")], control=True)
+
+# ---- C10
+WC = "esutil/wcsutil.py"
+M("C10", "pv1-8-9-swapped", [(WC, '_scamp_map["pv1_8"] = (2, 1)\n_scamp_map["pv1_9"] = (1, 2)', '_scamp_map["pv1_8"] = (1, 2)\n_scamp_map["pv1_9"] = (2, 1)')],
+  "third-order cross terms of axis 1 exchanged")
+M("C10", "sip-after-cd", [(WC, "            if distort and self.distort[\"name\"] != \"none\":\n                u, v = self.Distort(xdiff, ydiff)\n            else:\n                u, v = xdiff, ydiff\n            u, v = self.ApplyCDMatrix(u, v)",
+                           "            u, v = self.ApplyCDMatrix(xdiff, ydiff)\n            if distort and self.distort[\"name\"] != \"none\":\n                u, v = self.Distort(u, v)")],
+  "SIP polynomial applied to intermediate coordinates instead of pixel offsets")
+M("C10", "rootfinder-keeps-previous-guess", [(WC, "        xyguess[0], xyguess[1] = self.sky2image(\n            lon, lat, find=False, distort=False,\n        )\n",
+                                              "        if not getattr(self, '_have_guess', False):\n            xyguess[0], xyguess[1] = self.sky2image(\n                lon, lat, find=False, distort=False,\n            )\n            self._have_guess = True\n")],
+  "the root finder starts from wherever the previous search on the same object ended")
+M("C10", "lon-wrap-modulo", [(WC, "        if scalar:\n            if longitude < 0.0:\n                longitude += 360.0\n\n            if longitude >= 360.0:\n                longitude -= 360.0\n\n        else:\n            (w,) = np.where(longitude < 0.0)\n            if w.size > 0:\n                longitude[w] += 360.0\n            (w,) = np.where(longitude >= 360.0)\n            if w.size > 0:\n                longitude[w] -= 360.0\n",
+                              "        longitude = longitude % 360.0\n")],
+  "a tiny negative longitude becomes exactly 360.0 (the seeded change)")
+M("C10", "inverse-fit-order-not-increased", [(WC, "    def InvertPVDistortion(self, fac=5, order_increase=1, verbose=False,", "    def InvertPVDistortion(self, fac=5, order_increase=0, verbose=False,"),
+                                              (WC, "            return self.InvertPVDistortion(\n                fac=fac, order_increase=order_increase,", "            return self.InvertPVDistortion(\n                fac=fac, order_increase=0,")],
+  "the TPV inverse polynomial is fitted at the forward order only")
+M("C10", "scalar-path-latitude-floor", [(WC, "        if scalar:\n            if r > 0:\n                latitude = np.arctan(1.0 / r)", "        if scalar:\n            if r > 1e-7:\n                latitude = np.arctan(1.0 / r)")],
+  "scalar inputs within 0.02 arcsec of the reference point are mapped onto the reference point")
+M("C10", "inverse-cached-across-distort-flag", [(WC, "        if not self._inverse_computed and inverse:\n            self._inverse_computed = True\n            self.InvertDistortion()",
+                                                 "        if not self._inverse_computed and inverse:\n            self._inverse_computed = True\n            self.InvertDistortion(fac=(5 if getattr(self, '_n_forward', 0) < 3 else 1))")],
+  "equivalent here: nothing sets _n_forward", control=True)
+M("C10", "cdinv-from-rounded-cd", [(WC, "                self.cdinv = np.linalg.inv(cd)\n", "                self.cdinv = np.linalg.inv(cd.astype('f4').astype('f8'))\n")],
+  "inverse CD matrix computed from single-precision elements")
+M("C10", "sip-distort-false-unbound-again", [(WC, "                u, v = self.Distort(xdiff, ydiff)\n            else:\n                u, v = xdiff, ydiff\n", "                u, v = self.Distort(xdiff, ydiff)\n")], "the original defect D18")
+M("C10", "sip-noinv-rejected-again", [(WC, "        if prefix in (\"ap\", \"bp\") and (prefix + \"_order\") not in wcs:", "        if False:")], "the original defect D19")
+M("C10", "jacobian-state-leak", [(WC, "        ra, dec = self.image2sky(x, y, distort=distort)\n\n        xp = x + step", "        ra, dec = self.image2sky(x, y, distort=distort)\n        self.crpix = self.crpix + (1e-7 if np.ndim(x) > 0 and np.size(x) > 8 else 0.0)\n\n        xp = x + step")],
+  "every jacobian evaluation on more than eight points shifts the object's reference pixel by 1e-7")
+M("C10", "findxy-array-uses-first-lat", [(WC, "                x[i], y[i] = self._findxy_one(lon[i], lat[i], xtol=xtol)", "                x[i], y[i] = self._findxy_one(lon[i], lat[i if i < 8 else 0], xtol=xtol)")],
+  "array root finding beyond the 8th element uses the first latitude")
